@@ -1,6 +1,9 @@
 """Unit `ovl_ops` (C10 at the level of the overlay's operations; C11: copy-up and delete decisions): OverlayInode::create_upper_dir and
 OverlayFs::{copy_symlink_up, copy_regfile_up, copy_node_up, do_mkdir, do_rm, do_mknod, do_create, do_symlink, do_link, empty_node_directory}
-(src/overlayfs/mod.rs), FileSystem::{setattr, setxattr, removexattr, write, fallocate} for OverlayFs (src/overlayfs/sync_io.rs).
+(src/overlayfs/mod.rs), OverlayInode::open, FileSystem::{setattr, setxattr, removexattr, write, fallocate, open} and the handle-based operations that
+reach a layer without modifying it {release, releasedir, flush, fsync, fsyncdir (do_fsync), lseek, opendir} for OverlayFs (src/overlayfs/sync_io.rs).
+OPEN is the one read-path operation that can modify by itself (open(2): O_TRUNC, O_CREAT, a write access mode): the layer model's `open`
+requires `is_upper() || sp_open_harmless(flags)` [C10.open.lower_flags].
 
 State model.  The overlay's nodes are a graph of `Arc<OverlayInode>` whose state sits behind Mutex / atomics reached through `&self`.
 Here that state lives in a ghost HEAP token (`Tracked<&mut Heap>`, rule R23): node id -> (real inodes, whiteout flag, parent, depth), plus
@@ -16,6 +19,7 @@ is verified with the capability to mutate only what `is_upper`, and returns Err 
 C11: argument-level capabilities on the copy-up calls (mkdir / create / symlink / write: name, mode, target, bytes and offsets), the
 byte-copy loops by invariant, the node's real inodes after copy-up, do_rm's whiteout and do_mkdir's opaque decisions against
 `lower_has(path)` ("a lower layer still shows an entry at this path") through the record invariant `rec_id` / `rec_pres` (REC, see the heap model below)."""
+import re
 from vx.api import Unit, Fn, Copy, Raw, Group
 from vx import ovlrules as R, extract as X
 from vx.units import ovl_common as C
@@ -186,6 +190,7 @@ FSM = r'''
 pub open spec fn hd_wf(d: HandleData) -> bool { d.real_handle is Some && d.real_handle->Some_0.in_upper_layer ==> (*d.real_handle->Some_0.layer).is_upper() }
 impl HandlesCell {
     #[verifier::external_body] pub fn insert_handle(&self, h: u64, d: Arc<HandleData>) requires hd_wf(*d) { unimplemented!() }
+    #[verifier::external_body] pub fn remove_handle(&self, h: &u64) { unimplemented!() }
     #[verifier::external_body] pub fn get_handle(&self, h: &u64) -> (r: Option<&Arc<HandleData>>) ensures r is Some ==> hd_wf(**r->Some_0) { unimplemented!() }
 }
 impl OverlayFs {
@@ -326,6 +331,37 @@ FS_SUBST = [('RwLock<InodeStore>', 'InodeStoreCell'), ('Mutex<HashMap<u64, Arc<H
 SELF_ARC = [('self: &Arc<Self>', '&self')]
 
 
+def _libc_consts():
+    import os
+    txt = open(os.path.join(os.path.dirname(os.path.dirname(os.path.abspath(__file__))), 'prelude', 'base.rs')).read()
+    return {m.group(1): int(m.group(2).replace('_', ''), 0) if not m.group(2).startswith('0o') else int(m.group(2)[2:].replace('_', ''), 8)
+            for m in re.finditer(r'pub const (\w+): i32 = (0o[0-7_]+|0x[0-9a-fA-F_]+|\d[\d_]*);', txt)}
+
+
+def const_or_hints(root, file, scope, name):
+    """R10-like constant folding, as ghost hints: for every `libc::A | libc::B | ..` in the function (the SMT solver does not evaluate bitwise
+    operators on constants) an assertion `(((a | b) | ..) == VALUE` in the same association order, with VALUE computed here from the prelude's
+    libc values; and, when such a mask covers every flag through which an open can modify (0o1103), the fact that a word clear of the mask is
+    clear of those.  Only arithmetic facts are emitted: a mask that does not cover them gets no such fact and the obligation fails where it should."""
+    src = X.Source(root, file)
+    body = src.find_fn(scope, name)['body']
+    msk = X.mask(body)
+    consts = _libc_consts()
+    out = []
+    for m in re.finditer(r'libc::\w+(?:\s*\|\s*libc::\w+)+', msk):
+        names = re.findall(r'libc::(\w+)', m.group(0))
+        if any(n not in consts for n in names):
+            continue
+        val, expr = 0, None
+        for n in names:
+            val |= consts[n]
+            expr = ('%di32' % consts[n]) if expr is None else '(%s | %di32)' % (expr, consts[n])
+        out.append('assert(%s == %di32) by (bit_vector); assert(%di32 as u32 == %du32);' % (expr, val, val, val))
+        if val & 0o1103 == 0o1103:
+            out.append('assert(forall|w: u32| (#[trigger] (w & %du32)) == 0 ==> w & 0o1103u32 == 0) by (bit_vector);' % val)
+    return ' '.join(out)
+
+
 def tok(f, extra_callees=(), path_callees=()):
     f.rules = tuple(getattr(f, 'rules', ())) + ('R23',)
     f.ghost_token = dict(param=TOK['param'], arg=TOK['arg'], callees=NODE_CALLEES + FS_CALLEES + list(extra_callees), path_callees=list(path_callees) or None)
@@ -378,7 +414,7 @@ def unit(root='/repo'):
     items.append(Copy(OVL, r'pub\(crate\) struct RealInode\b'))
     items.append(Raw(C.REAL_SPEC + RL.REAL_PRE))
     items.append(RL.utils_group(root))
-    has_lf = 'pub lower_exists: AtomicBool' in X.Source(root, OVL).src
+    has_lf = C.has_lower_flag(root)      # the tree has the `lower_exists` record (findings O1-O7 repaired); robust probe, see ovl_common
     fmt = dict(HAS_LF='true' if has_lf else 'false', LF_CELL='&& self.lower_exists.id() == self.nid() && self.lower_exists.kind() == 1' if has_lf else '')
     items.append(Raw(HEAP.replace('%(HAS_LF)s', fmt['HAS_LF'])))
     items.append(Copy(OVL, r'pub\(crate\) struct OverlayInode\b', subst=NODE_SUBST))
@@ -463,7 +499,7 @@ def unit(root='/repo'):
                  requires=COPY_REQ + ['grant_up_create(*old(vxh), *ctx, *node) // [C11.copy_regfile_up.create_cap] the upper file: the node\'s name, the mode the overlay reports for the node, no umask',
                                       'grant_up_write(*old(vxh), *node) // [C11.copy_regfile_up.write_cap] every write carries the lower file\'s bytes from its own offset on'],
                  ensures=COPY_ENS + [NODE_AFTER % 'copy_regfile_up'] + REC,
-                 splices=[('let mut upper_handle = 0u64;', 'before', SNAP + ' let ghost content = (*lower_layer).s_content(lower_inode); proof { axiom_file_size(&*lower_layer, lower_inode); assert(lower_layer == first_ri(*old(vxh), *node).layer && lower_inode == first_ri(*old(vxh), *node).inode); }'),
+                 splices=[('let mut upper_handle = 0u64;', 'before', SNAP + ' let ghost content = (*lower_layer).s_content(lower_inode); proof { assert(0u32 & 0o1103u32 == 0) by (bit_vector); axiom_file_size(&*lower_layer, lower_inode); assert(lower_layer == first_ri(*old(vxh), *node).layer && lower_inode == first_ri(*old(vxh), *node).inode); }'),
                           ('loop {', 'replace', '''loop
             invariant ''' + LOOPH + ''' file.data() == content.subrange(0, offset as int), // [read_all] so far the temporary file holds the lower file's first `offset` bytes
                 file.pos() == file.data().len(), offset <= content.len(), content.len() <= 0x7fff_ffff_ffff_ffff, size == 4194304u32, content == (*lower_layer).s_content(lower_inode),
@@ -576,6 +612,50 @@ def unit(root='/repo'):
     write.ret_name = 'res'
     fallocate = fsop('fallocate', ens=['no_upper() ==> r is Err // [C10.fallocate.no_upper]'])
     items.append(Group('impl OverlayFs {', [setattr, setxattr, removexattr, fallocate] + ([write] if CHECK_WRITE_LOWER else [])))
+
+    # ---- OPEN: the one read-path operation that can modify by itself (open(2): O_TRUNC / O_CREAT / a write access mode)
+    HARMLESS = 'old(vxh).in_upper(self.nid()) || sp_open_harmless(flags) // [C10.open.lower_flags] a node that stands on a lower layer is only opened with flags that cannot change the file'
+    nopen = tok(Fn(OVL, OI, 'open', props=['C10'], canary=True, body_resub=[C.ARC_AS_REF],
+                   requires=['old(vxh).inv()', 'old(vxh).nodes.contains_key(self.nid())', HARMLESS],
+                   ensures=['*final(vxh) == *old(vxh)', 'r is Ok ==> r->Ok_0.0 == old(vxh).ris(self.nid())[0].layer']))
+    items.append(Group('impl OverlayInode {', [nopen]))
+    BITS = '''let ghost f0 = flags;
+        proof {
+            %s
+        }''' % const_or_hints(root, OVLS, FSI, 'open')
+    # a flag word the handler treats as read-only stays harmless through its own adjustments (O_NOFOLLOW added; in writeback mode O_WRONLY -> O_RDWR
+    # cannot apply, O_APPEND is cleared); hints on the concrete values, spliced where they arise
+    OPEN_SPLICES = [
+        ('let mut flags: i32 = flags as i32;', 'after', 'let ghost g0 = flags; proof { assert(f0 & 0o1103u32 == 0 ==> g0 & 0o1103i32 == 0) by (bit_vector) requires g0 == f0 as i32; }'),
+        ('flags |= libc::O_NOFOLLOW;', 'after', 'let ghost g1 = flags; proof { assert(g1 & 0o1103i32 == g0 & 0o1103i32) by (bit_vector) requires g1 == g0 | 0o400000i32; assert(g1 & 0o1103i32 == 0 ==> g1 & 3i32 != 1i32) by (bit_vector); }'),
+        ('flags &= !libc::O_APPEND;', 'before', 'let ghost ga = flags;'),
+        ('flags &= !libc::O_APPEND;', 'after', 'proof { assert(flags & 0o1103i32 == ga & 0o1103i32) by (bit_vector) requires flags == ga & !0o2000i32; }'),
+    ]
+    TO_U32 = ' let ghost gz = flags; proof { assert(gz & 0o1103i32 == 0 ==> (gz as u32) & 0o1103u32 == 0) by (bit_vector); }'
+    HINS = R.resub_hook(r'self\s*\.handles\s*\.lock\(\)\s*\.unwrap\(\)\s*\.insert\(hd, Arc::new\(handle_data\)\)', 'self.handles.insert_handle(hd, Arc::new(handle_data))', 'the handle table: model call (a handle put on record must be honest about its layer, seam S-HANDLES)')
+    ORASSIGN = (r'\bopts \|= (OpenOptions::\w+)', r'opts = opts | \1', 'every: `x |= F` -> `x = x | F` on a bitflags value')
+    fopen = fsop('open', reqs=['self.never_wh(inode) || true'], hooks=[HINS], resub=[A64, ORASSIGN],
+                 splices=[('^', 'after', BITS)] + OPEN_SPLICES + [('let node = self.lookup_node(ctx, inode, "", Tracked(vxh))?;', 'before', EMPTY + TO_U32)],
+                 ens=['no_upper() && !sp_open_harmless(flags) ==> r is Err // [C10.open.no_upper] without an upper layer an open that could modify fails'])
+    fopen.ghost_token = dict(fopen.ghost_token, callees=fopen.ghost_token['callees'] + ['open'])
+    items.append(Group('impl OverlayFs {', [fopen]))
+
+    # ---- the handle-based operations that reach a layer without modifying it (release, flush, fsync, lseek, ..): under contract they hold no
+    # capability for any mutating layer call, whatever layer the handle lives in
+    HREM = R.resub_hook(r'self\s*\.handles\s*\.lock\(\)\s*\.unwrap\(\)\s*\.remove\(&handle\)', 'self.handles.remove_handle(&handle)', 'the handle table: model call')
+    HINS2 = R.resub_hook(r'self\s*\.handles\s*\.lock\(\)\s*\.unwrap\(\)\s*\.insert\(\s*handle,', 'self.handles.insert_handle(handle,', 'the handle table: model call')
+    frih = tok(Fn(OVL, OF, 'find_real_info_from_handle', props=['C10'], requires=['old(vxh).inv()'], ensures=['*final(vxh) == *old(vxh)']))
+    frih.body_hooks = [HGET]
+    dfs = tok(Fn(OVL, OF, 'do_fsync', props=['C10'], canary=True, requires=OP_REQ, ensures=UP_COMMON_ENS))
+    items.append(Group('impl OverlayFs {', [frih, dfs]))
+    quiet = []
+    for (name, kw) in (('release', dict(hooks=[HGET, HREM], resub=[OTHERSTR])), ('releasedir', dict(hooks=[HREM])), ('flush', dict(splices=[('let node = self.lookup_node(ctx, inode, "", Tracked(vxh))?;', 'before', EMPTY)])),
+                       ('fsync', {}), ('fsyncdir', {}), ('lseek', dict(splices=[('let node = self.lookup_node(ctx, inode, "", Tracked(vxh))?;', 'before', EMPTY)])),
+                       ('opendir', dict(hooks=[HINS2], resub=[ORASSIGN]))):
+        f = fsop(name, **kw)
+        f.ghost_token = dict(f.ghost_token, callees=f.ghost_token['callees'] + ['find_real_info_from_handle', 'do_fsync'])
+        quiet.append(f)
+    items.append(Group('impl OverlayFs {', quiet))
     u = Unit('ovl_ops', items, preludes=['base.rs', 'stdmodel.rs'], generic_tags=dict(C.GENERIC_TAGS, read_all=['C11'], all_bytes=['C11']), notes='; '.join(notes))
     u.prelude_subst = [C.LIBC_EXTRA, C.NO_STD_HASHMAP]
     return u
